@@ -200,8 +200,9 @@ func genStream(r *rand.Rand) op {
 	switch r.Intn(10) {
 	case 0, 1, 2, 3: // exact
 		o.N = o.L
-	case 4, 5, 6: // unknown
-		o.N = -1
+	case 4, 5, 6: // unknown: any negative size means "read until EOF"; -2 is what
+		// ResponseHeader.ContentLength() reports for an upstream response without Content-Length
+		o.N = []int{-1, -1, -2, -2, -3, -100}[r.Intn(6)]
 	case 7: // declared shorter than produced
 		if o.L == 0 {
 			o.L = pick(r, streamLens[1:])
@@ -238,8 +239,11 @@ func genOp(r *rand.Rand, method string) op {
 		return op{K: "apicl", N: []int{-1, 0, 7, 300, 100000}[r.Intn(5)]}
 	case x < 43:
 		return op{K: "handte", S: pick(r, handTEPool)}
-	case x < 46:
+	case x < 45:
 		return op{K: "handconn", S: []string{"close", "keep-alive"}[r.Intn(2)]}
+	case x < 46:
+		// what a proxy stripping hop-by-hop / framing fields from an upstream response does
+		return op{K: "delhdr", S: []string{"Transfer-Encoding", "Transfer-Encoding", "Content-Length", "Connection"}[r.Intn(4)]}
 	case x < 47:
 		return op{K: "connclose"}
 	case x < 53:
@@ -250,8 +254,10 @@ func genOp(r *rand.Rand, method string) op {
 		return op{K: "raw", L: pick(r, bodyLens)}
 	case x < 67:
 		return op{K: "reset"}
-	case x < 82:
+	case x < 79:
 		return genStream(r)
+	case x < 82:
+		return op{K: "delhdr", S: []string{"Transfer-Encoding", "Transfer-Encoding", "Content-Length", "Connection"}[r.Intn(4)]}
 	case x < 90:
 		n := 1 + r.Intn(4)
 		o := op{K: "writer", F: r.Intn(2) == 0}
@@ -318,7 +324,7 @@ func (cs *caseSpec) nontrivial() bool {
 		}
 		for _, o := range q.Prog {
 			switch o.K {
-			case "stream", "writer", "handcl", "apicl", "handte", "handconn", "trailer":
+			case "stream", "writer", "handcl", "apicl", "handte", "handconn", "delhdr", "trailer":
 				return true
 			case "status":
 				if o.N == 204 || o.N == 304 {
@@ -428,6 +434,8 @@ func execProg(ctx *fasthttp.RequestCtx, qi int, prog []op, closes *int32) {
 			ctx.Response.Header.Set("Transfer-Encoding", o.S)
 		case "handconn":
 			ctx.Response.Header.Set("Connection", o.S)
+		case "delhdr":
+			ctx.Response.Header.Del(o.S)
 		case "connclose":
 			ctx.SetConnectionClose()
 		case "setbody":
